@@ -1,6 +1,6 @@
 (* C11 — an IBAN or BIC decomposes losslessly into its published fields. *)
 From Schwifty Require Import Lib.Base Lib.Lit Model.Clean Model.Data Model.Iban Model.Bic Model.Bban.
-From Schwifty Require Import Spec.Iso13616 Spec.Iso9362.
+From Schwifty Require Import Spec.Iso13616 Spec.Iso9362 Spec.RegistrySpec.
 From Schwifty Require Import Proofs.CleanFacts Proofs.IbanFacts Proofs.IbanTheorems Proofs.BicFacts Proofs.FormatFacts
   Proofs.DecompFacts Proofs.GenObligations.
 From Schwifty Require Import Gen.Env Gen.IbanData Gen.IbanCfg Gen.BicCfg Gen.Accessors.
